@@ -14,4 +14,18 @@ func init() {
 		rowsrestUPC(c)
 		rowsrestRSS(c)
 	}
+	prev03 := suites["C03"]
+	suites["C03"] = func(c *Ctx) {
+		if prev03 != nil && !only {
+			prev03(c)
+		}
+		rowsrestMulti(c)
+	}
+	prev10 := suites["C10"]
+	suites["C10"] = func(c *Ctx) {
+		if prev10 != nil && !only {
+			prev10(c)
+		}
+		rowsrestC10(c)
+	}
 }
